@@ -18,6 +18,7 @@ pub fn localizer(l: Loc) -> PathLocalizer {
 }
 
 pub const COMPONENTS: [&str; 13] = ["m", "GameData.bin.lz", "a b", " ", "ü", "日本", "@E", "e_x", "x.", "-", "Data\\One.bin", "...", "Яį.bin"];
+pub const SCHEME_LIKE: [&str; 9] = ["rom:", "romfs:", "sdmc:", "C:", "~", "file:", "ROM:", "rom", "data:"];
 pub const DEGENERATE: [&str; 8] = ["", "/", "..", "a/..", ".", "//", "a/../", "../"];
 
 fn check_one(c: &mut Case, l: Loc, lang: Language, path: &str) {
@@ -47,7 +48,7 @@ pub const REQUIRED: &[&str] = &["table_grid", "degenerate_paths", "fs_localized_
 
 pub fn run(cx: &mut Ctx) {
     cx.require(REQUIRED);
-    cx.rule = "exhaustive: 6 localizers x 8 languages x every path of depth 1..=4 over the components {m, GameData.bin.lz, 'a b', ' ', u-umlaut, two kanji, @E, e_x, 'x.', -, 'Data\\One.bin' (a backslash is an ordinary character on this platform), '...', a Cyrillic/Latin-extended name whose code points end in 0x2F} with and without a trailing slash (30940 x 2 paths), paths of every total length 200..=300 bytes and around 1 KiB / 4 KiB, plus the degenerate paths \"\", /, .., a/.., ., //; oracle = the literal 6x8 marker table of the statement applied to a string split at the last '/'. Filesystem part: for each supported game x language, localized write/read/exists/list on generated paths under the on-disk monitors of C12 (the file must appear at layer/<expected localized path>). non-trivial = (localizer, language, path shape) triples; the table x shape grid is exhaustive".into();
+    cx.rule = "exhaustive: 6 localizers x 8 languages x every path of depth 1..=4 over the components {m, GameData.bin.lz, 'a b', ' ', u-umlaut, two kanji, @E, e_x, 'x.', -, 'Data\\One.bin' (a backslash is an ordinary character on this platform), '...', a Cyrillic/Latin-extended name whose code points end in 0x2F} with and without a trailing slash (30940 x 2 paths), paths of every total length 200..=300 bytes and around 1 KiB / 4 KiB, every path of depth 2..=3 below a first component that looks like a mount point / drive / scheme (rom:, romfs:, sdmc:, C:, ~, file:, ROM:, rom, data:), plus the degenerate paths \"\", /, .., a/.., ., //; oracle = the literal 6x8 marker table of the statement applied to a string split at the last '/'. Filesystem part: for each supported game x language, localized write/read/exists/list on generated paths under the on-disk monitors of C12 (the file must appear at layer/<expected localized path>). non-trivial = (localizer, language, path shape) triples; the table x shape grid is exhaustive".into();
     let miri = cfg!(miri);
     let depth_max = if miri { 2 } else { 4 };
     // one case per (localizer, language): enumerates all shapes
@@ -118,6 +119,27 @@ pub fn run(cx: &mut Ctx) {
                     c.eval(n);
                 });
             }
+            cx.case("scheme_like_first_component", |c| {
+                c.sit("scheme_like_first_component");
+                // first components that look like a mount point / drive / URL scheme are plain names
+                let mut n = 0u64;
+                for pre in SCHEME_LIKE {
+                    for a in COMPONENTS {
+                        check_one(c, l, lang, &format!("{}/{}", pre, a));
+                        check_one(c, l, lang, &format!("{}/{}/", pre, a));
+                        n += 2;
+                        if !miri {
+                            for b in COMPONENTS {
+                                check_one(c, l, lang, &format!("{}/{}/{}", pre, a, b));
+                                n += 1;
+                            }
+                        }
+                    }
+                    check_one(c, l, lang, pre);
+                    n += 1;
+                }
+                c.eval(n);
+            });
             cx.case("degenerate_paths", |c| {
                 c.sit("degenerate_paths");
                 if l == Loc::NoOp {
